@@ -231,8 +231,9 @@ def c07_c(ctx: Ctx):
                         ds = common.reaching_defs(ctx, gb, node.id, at)
                     except Exception:
                         return node
-                    if len(ds) == 1 and isinstance(ds[0], (ast.Dict, ast.DictComp)):
-                        return ast.copy_location(_copy.deepcopy(ds[0]), node)
+                    real = [d for d in ds if not (isinstance(d, ast.Constant) and d.value is None)]
+                    if real and all(isinstance(d, (ast.Dict, ast.DictComp)) for d in real) and (len(real) == 1 or all("$exists" in canon(d) for d in real)):
+                        return ast.copy_location(_copy.deepcopy(real[0]), node)
                 return node
         return _S().visit(_copy.deepcopy(v))
 
@@ -291,7 +292,22 @@ def c07_c(ctx: Ctx):
     # pre-filter only when no default
     for a in first[1:]:
         facts = common.facts_at(ctx, gb, a, "n")
-        if ("default is None", True) not in facts:
+        if ("default is None", True) in facts:
+            continue
+        # the pre-filter may have been built earlier into a local that stays None when a default is given: then every construction of an
+        # $exists mapping that can reach this assignment must itself be under `default is None`
+        srcs = []
+        for nm in sorted(names_in(a.value) - {FV} - set(gb.params)):
+            try:
+                ds = common.reaching_defs(ctx, gb, nm, a)
+            except Exception:
+                ds = ["?"]
+            srcs += [(nm, d) for d in ds]
+        builds = [(nm, d) for (nm, d) in srcs if isinstance(d, ast.AST) and "$exists" in canon(d)]
+        others = [(nm, d) for (nm, d) in srcs if not (isinstance(d, ast.AST) and ("$exists" in canon(d) or (isinstance(d, ast.Constant) and d.value is None)))]
+        guarded = builds and not others and all(("default is None", True) in common.facts_at(ctx, gb, d, "n") for (_nm, d) in builds) \
+            and all((f"{nm} is None", False) in facts for (nm, _d) in builds)
+        if not guarded:
             out.append(ctx.viol(R, gb, a, "the $exists pre-filter is applied although a default was given: jobs lacking the key are dropped instead of labelled with the default"))
     return out
 
